@@ -924,7 +924,7 @@ func engineGoFun(c config, o *out) {
 				if d.fn {
 					fmt.Printf("Definition %s : fundecl :=\n  %s.\n", cn, d.node.coq)
 				} else {
-					fmt.Printf("Definition %s : string * expr :=\n  %s.\n", cn, d.node.coq)
+					fmt.Printf("Definition %s : gname * gexpr :=\n  %s.\n", cn, d.node.coq)
 				}
 			}
 		}
